@@ -1,6 +1,8 @@
 import MidnightZK.Model.C16.Points
 import MidnightZK.Model.C16.Arch
 import MidnightZK.Model.C16.VK
+import MidnightZK.Model.C16.Proof
+import MidnightZK.Model.C16.IR
 /-!
 Helper lemmas of property C16 (core Lean only).
 -/
@@ -151,5 +153,117 @@ theorem pointsRead_le {dec : Bytes → Except Err Pt} {size : Nat} :
         · rw [h1.1, List.length_append, h1.2, Nat.add_mul]
           omega
         · omega
+
+end MidnightZK.C16
+
+namespace MidnightZK.C16
+
+/-! ### sign flag, zero tails, element walks -/
+
+theorem fpP_odd : fpP = 2 * ((fpP - 1) / 2) + 1 := by decide
+
+/-- After the conditional negation of the decompression, the sign of `y` is the sign the flag
+asked for — unless `y = 0` (both flags decode to the same point then). -/
+theorem sign_after_cneg (y : Nat) (s : Bool) (hy : y < fpP) :
+    let y' := if signFp y != s then (fpP - y) % fpP else y
+    signFp y' = s ∨ y' = 0 := by
+  intro y'
+  by_cases hs : signFp y = s
+  · left
+    have : y' = y := by simp [y', hs]
+    rw [this, hs]
+  · have hy' : y' = (fpP - y) % fpP := by simp [y', hs]
+    by_cases h0 : y = 0
+    · right; rw [hy', h0]; simp
+    · left
+      have hlt : fpP - y < fpP := by omega
+      rw [hy', Nat.mod_eq_of_lt hlt]
+      have hodd := fpP_odd
+      generalize (fpP - 1) / 2 = h at hodd
+      unfold signFp at hs ⊢
+      rw [show (fpP - 1) / 2 = h by omega] at hs ⊢
+      cases s with
+      | true =>
+        have : ¬ y > h := by simpa using hs
+        simp; omega
+      | false =>
+        have : y > h := by simpa using hs
+        simp; omega
+
+theorem allZero_eq_replicate : ∀ (t : Bytes), allZero t = true → t = List.replicate t.length 0
+  | [], _ => rfl
+  | b :: t, h => by
+    simp only [allZero, List.all_cons, Bool.and_eq_true, beq_iff_eq] at h
+    have ih := allZero_eq_replicate t (by simpa [allZero] using h.2)
+    rw [List.length_cons, List.replicate_succ, ← ih, h.1]
+
+theorem scheduleLen_append (a b : List Elem) : scheduleLen (a ++ b) = scheduleLen a + scheduleLen b := by
+  simp [scheduleLen, List.map_append, List.sum_append]
+
+theorem scheduleLen_replicate (n : Nat) (e : Elem) : scheduleLen (List.replicate n e) = n * e.size := by
+  induction n with
+  | zero => simp [scheduleLen]
+  | succ k ih =>
+    simp only [List.replicate_succ, scheduleLen, List.map_cons, List.sum_cons] at ih ⊢
+    rw [ih, Nat.succ_mul]; omega
+
+/-- The element walk: what it read, and — when it stops without an error — how many bytes it used. -/
+theorem parseElems_spec (decPt : Bytes → Except Err G1Pt) :
+    ∀ (l : List Elem) (bs : Bytes) (n0 : Nat) (n : Nat) (e : Option Err) (rest : Bytes),
+      parseElems decPt l bs n0 = (n, e, rest) →
+        n0 ≤ n ∧ n ≤ n0 + l.length ∧
+        (e = none → n = n0 + l.length ∧ bs.length = scheduleLen l + rest.length)
+  | [], bs, n0, n, e, rest, h => by
+    simp only [parseElems, Prod.mk.injEq] at h
+    obtain ⟨rfl, rfl, rfl⟩ := h
+    simp [scheduleLen]
+  | el :: t, bs, n0, n, e, rest, h => by
+    simp only [parseElems] at h
+    split at h
+    · simp only [Prod.mk.injEq] at h
+      obtain ⟨rfl, rfl, rfl⟩ := h
+      simp
+    · next a r hr =>
+      split at h
+      · simp only [Prod.mk.injEq] at h
+        obtain ⟨rfl, rfl, rfl⟩ := h
+        simp
+      · have ih := parseElems_spec decPt t r (n0 + 1) n e rest h
+        have hr' := readN_ok hr
+        refine ⟨by omega, by simp only [List.length_cons]; omega, ?_⟩
+        intro he
+        have := ih.2.2 he
+        refine ⟨by simp only [List.length_cons]; omega, ?_⟩
+        rw [hr'.1, List.length_append, hr'.2, this.2]
+        simp only [scheduleLen, List.map_cons, List.sum_cons]
+        omega
+
+theorem firstArityFailure_none :
+    ∀ (l : List (Nat × Nat × Nat)) (k : Nat), firstArityFailure l k = none →
+      ∀ x ∈ l, checkArity x.1 x.2.1 x.2.2 = true
+  | [], _, _ => by simp
+  | (t, i, o) :: rest, k, h => by
+    simp only [firstArityFailure] at h
+    split at h
+    · next hc =>
+      intro x hx
+      rcases List.mem_cons.mp hx with rfl | hx
+      · exact hc
+      · exact firstArityFailure_none rest (k + 1) h x hx
+    · simp at h
+
+/-- The `while` loop of the extended-domain computation: if it stopped before the fuel ran out,
+the extended domain is large enough for the quotient polynomial. -/
+theorem extKLoop_spec : ∀ (fuel ek k q : Nat), extKLoop fuel ek k q < ek + fuel →
+    2 ^ k * q ≤ 2 ^ extKLoop fuel ek k q ∧ ek ≤ extKLoop fuel ek k q
+  | 0, ek, k, q, h => by simp [extKLoop] at h
+  | fuel + 1, ek, k, q, h => by
+    unfold extKLoop at h ⊢
+    split
+    · next hlt =>
+      rw [if_pos hlt] at h
+      have := extKLoop_spec fuel (ek + 1) k q (by omega)
+      exact ⟨this.1, by omega⟩
+    · next hge => exact ⟨by omega, Nat.le_refl _⟩
 
 end MidnightZK.C16
